@@ -1637,8 +1637,10 @@ impl VirtualFileSystem for Memfs {
             None => return Err(PathError::does_not_exist(dst_top.dir()?).into()),
         }
         if let Some(entry) = guard.get_entry(&dst_top) {
-            // Only a file or link can be replaced and only by another file or link
-            if src_is_dir || (entry.is_dir() && !entry.is_symlink()) {
+            // As with rename(2) a file or link replaces a file or link and a directory an empty directory
+            let dst_is_dir = entry.is_dir() && !entry.is_symlink();
+            let dst_is_empty = entry.files.as_ref().map(|x| x.is_empty()).unwrap_or(true);
+            if src_is_dir != dst_is_dir || (dst_is_dir && !dst_is_empty) {
                 return Err(PathError::exists_already(&dst_top).into());
             }
             guard.remove_file(&dst_top);
